@@ -85,24 +85,61 @@ Fixpoint copy (t : trie) : trie :=
                  end) ch [])
   end.
 
-(* the parser's protocol: declare = aliasExists ? diagnostic : Insert *)
-Inductive top := Declare (ks : list K) (v : V) | Lookup (ks : list K) | Search (q : list K).
-Inductive tout := Declared | Rejected (existing : V) | Found (r : option V) | Matches (r : option (list V)).
+(* the parser's protocol:
+   Declare = aliasExists ? diagnostic : Insert                (parser.go, declarations.go)
+   Put     = Insert without looking first: overwrites the value of an equal key
+             (alias.go generateGenericContext: the declaration-site aliases of a generic function
+             are Inserted unconditionally into the COPY of the instantiating parser's trie)
+   Fork    = Copy the current trie, run the inner history on the copy (the body of the generic
+             instantiation is parsed with it), discard the copy and continue on the ORIGINAL.
+             Forks nest (an instantiation that instantiates). *)
+Inductive top :=
+| Declare (ks : list K) (v : V) | Lookup (ks : list K) | Search (q : list K)
+| Put (ks : list K) (v : V) | Fork (inner : list top).
+Inductive tout :=
+| Declared | Rejected (existing : V) | Found (r : option V) | Matches (r : option (list V))
+| PutDone | ForkBegin | ForkEnd.
 
-Definition tstep (t : trie) (o : top) : trie * tout :=
+(* one operation: the trie afterwards and the outputs (a fork shows the outputs of its inner
+   history between ForkBegin and ForkEnd) *)
+Fixpoint tstep_rec (o : top) (t : trie) {struct o} : trie * list tout :=
   match o with
   | Declare ks v => match lookup t ks with
-                    | Some w => (t, Rejected w)
-                    | None => (insert ks v t, Declared)
+                    | Some w => (t, [Rejected w])
+                    | None => (insert ks v t, [Declared])
                     end
-  | Lookup ks => (t, Found (lookup t ks))
-  | Search q => (t, Matches (search_seq q t))
+  | Lookup ks => (t, [Found (lookup t ks)])
+  | Search q => (t, [Matches (search_seq q t)])
+  | Put ks v => (insert ks v t, [PutDone])
+  | Fork inner =>
+    (t, ForkBegin ::
+        (fix go (l : list top) (c : trie) : list tout :=
+           match l with
+           | [] => []
+           | o' :: r => let '(c', out) := tstep_rec o' c in out ++ go r c'
+           end) inner (copy t) ++ [ForkEnd])
   end.
+
+Definition tstep (t : trie) (o : top) : trie * list tout := tstep_rec o t.
 
 Fixpoint trun (t : trie) (ops : list top) : list tout :=
   match ops with
   | [] => []
-  | o :: r => let '(t', out) := tstep t o in out :: trun t' r
+  | o :: r => let '(t', out) := tstep t o in out ++ trun t' r
+  end.
+
+(* the history without its (top-level, hence all) forks *)
+Definition is_fork (o : top) : bool := match o with Fork _ => true | _ => false end.
+Definition is_put (o : top) : bool := match o with Put _ _ => true | _ => false end.
+Definition erase_forks (ops : list top) : list top := filter (fun o => negb (is_fork o)) ops.
+
+(* the outputs outside of ForkBegin .. matching ForkEnd (d = nesting depth) *)
+Fixpoint strip_forks (d : nat) (outs : list tout) : list tout :=
+  match outs with
+  | [] => []
+  | ForkBegin :: r => strip_forks (S d) r
+  | ForkEnd :: r => strip_forks (pred d) r
+  | x :: r => match d with 0 => x :: strip_forks 0 r | _ => strip_forks d r end
   end.
 
 (* specification: association list keyed by token sequences compared pointwise with keq *)
@@ -127,10 +164,20 @@ Arguments copy {K V}.
 Arguments Declare {K V}.
 Arguments Lookup {K V}.
 Arguments Search {K V}.
+Arguments Put {K V}.
+Arguments Fork {K V}.
 Arguments Declared {V}.
 Arguments Rejected {V}.
 Arguments Found {V}.
 Arguments Matches {V}.
+Arguments PutDone {V}.
+Arguments ForkBegin {V}.
+Arguments ForkEnd {V}.
+Arguments tstep_rec {K V}.
+Arguments is_fork {K V}.
+Arguments is_put {K V}.
+Arguments erase_forks {K V}.
+Arguments strip_forks {V}.
 Arguments tstep {K V}.
 Arguments trun {K V}.
 Arguments eql {K}.
